@@ -412,7 +412,7 @@ func newGSIBlock(s Subtitles) (g *gsiBlock) {
 
 	// Timecode first in cue
 	if len(s.Items) > 0 {
-		g.timecodeFirstInCue = s.Items[0].StartAt
+		g.timecodeFirstInCue = s.Items[0].StartAt + g.timecodeStartOfProgramme
 	}
 	return
 }
@@ -947,8 +947,13 @@ func (s Subtitles) WriteToSTL(o io.Writer) (err error) {
 
 	// Loop through items
 	for idx, item := range s.Items {
+		// The reader makes timecodes relative to the start of the programme
+		t := newTTIBlock(item, idx+1)
+		t.timecodeIn += g.timecodeStartOfProgramme
+		t.timecodeOut += g.timecodeStartOfProgramme
+
 		// Write tti block
-		if _, err = o.Write(newTTIBlock(item, idx+1).bytes(g)); err != nil {
+		if _, err = o.Write(t.bytes(g)); err != nil {
 			err = fmt.Errorf("astisub: writing tti block #%d failed: %w", idx+1, err)
 			return
 		}
